@@ -175,6 +175,7 @@ class Path:
         self.notes = []
         self.solver_secs = 0.0
         self.assumed = []  # descriptions of assumptions made on this path
+        self.xcheck = []   # SMT-LIB text of queries the primary solver answered `unsat` (sampled; thorough tier)
         self._ix = (None, 0, set(), set(), [])  # index of self.pc: (list object, length indexed, term ids, symbol names, symbols per conjunct)
 
     def pc_index(self):
@@ -327,6 +328,15 @@ class Path:
         return d
 
     # -- obligations -----------------------------------------------------------------
+    XCHECK_MAX = int(__import__("os").environ.get("PYVC_XCHECK", "0"))   # thorough tier: sample of discharged queries for a second solver
+
+    def _xrecord(self, solver):
+        if self.XCHECK_MAX and len(self.xcheck) < self.XCHECK_MAX:
+            try:
+                self.xcheck.append(solver.to_smt2())
+            except Exception:  # noqa: BLE001
+                pass
+
     def oblige(self, name, cond, kind="post", detail=None):
         import time
         if cond is True:
@@ -373,6 +383,7 @@ class Path:
                     r0 = s0.check()
                     total += time.time() - t0
                     if r0 == z3.unsat:
+                        self._xrecord(s0)
                         continue
             for p in hyps:
                 s.add(p)
@@ -380,6 +391,8 @@ class Path:
             t0 = time.time()
             r = s.check()
             total += time.time() - t0
+            if r == z3.unsat:
+                self._xrecord(s)
             if r == z3.sat:
                 worst = "sat"
                 model = s.model()
